@@ -78,8 +78,11 @@ func randSal(r *rand.Rand, style int) int64 {
 		return int64(r.Intn(3) - 1)
 	case 1:
 		return int64(r.Intn(21) - 10)
-	default:
+	case 2:
 		return int64(r.Intn(2000000001) - 1000000000)
+	default: // the ends of the 64-bit range: differences that do not fit in 64 bits
+		return []int64{9223372036854775807, -9223372036854775807, 9000000000000000000, -9000000000000000000,
+			4611686018427387904, -4611686018427387905, 0, 1, -1}[r.Intn(9)]
 	}
 }
 
@@ -211,7 +214,7 @@ func genRandom(n int, fam string, seed int64, path string, target string) {
 		if tgt == "pool" && nr == 0 {
 			nr = 1
 		}
-		style := r.Intn(3)
+		style := r.Intn(4)
 		rules := make([]Rule, nr)
 		for j := range rules {
 			tpl := "A"
